@@ -242,6 +242,8 @@ class WorldGen(object):
                 others = [x for x in self.doc_urls if x != u]
                 doc[self.idkw] = rng.choice(others + ["http://sim.test/canonical/c%d.json" % len(docs)])
             doc.update(self.leaf(allow_bool=False) if rng.random() < 0.5 else {})
+            if rng.random() < 0.3:
+                doc["description"] = rng.choice(["caf\u00e9 \u20ac", "\u65e5\u672c\u8a9e", "na\u00efve \u2014 d\u00e9j\u00e0 vu"])   # non-ASCII on the wire
             doc["definitions"] = dict((self.names[i], defs[i]) for i in range(k.ndefs) if homes[i] == u)
             docs[u] = doc
         docs.update(self.plain_docs)
